@@ -403,7 +403,7 @@ def run(ck: Check) -> None:
         for a1, a2 in itertools.combinations(AXES, 2):
             for (t1, v1), (t2, v2) in itertools.product(GRID[a1], GRID[a2]):
                 add({**base, a1: v1, a2: v2}, "2-way", [(a1, t1), (a2, t2)], bn)
-    n3 = 40000 if thorough else 4000
+    n3 = 150000 if thorough else 4000
     for _ in range(n3):
         bn = ck.rng.choice(sorted(BASES))
         axes = ck.rng.sample(AXES, 3)
@@ -413,7 +413,7 @@ def run(ck: Check) -> None:
             case[a] = v
             tags.append((a, tag))
         add(case, "3-way", tags, bn)
-    nall = 40000 if thorough else 4000
+    nall = 150000 if thorough else 4000
     for _ in range(nall):
         bn = ck.rng.choice(sorted(BASES))
         case, tags = dict(BASES[bn]), []
